@@ -140,6 +140,20 @@ class _HintedIter:
         return len(self._items) + self._extra
 
 
+class _CallableIter:
+    """A legal finite iterable that happens to be callable as well (a data-set object whose __call__ does something unrelated,
+    an Enum class): the data are what iteration yields."""
+
+    def __init__(self, items):
+        self._items = list(items)
+
+    def __iter__(self):
+        return iter(self._items)
+
+    def __call__(self, *a, **kw):
+        return []           # unrelated to the data
+
+
 class _SizedView:
     """Sized and re-iterable, no Sequence (no indexing), like a dict view or a set."""
 
@@ -209,6 +223,8 @@ def make_input(call, ci, sh):
         return _ArrayLike(items)
     if form == "hinted":
         return _HintedIter(items, 3)
+    if form == "callable_iter":
+        return _CallableIter(items)
     if form == "list":
         return items
     if form == "tuple":
@@ -244,6 +260,56 @@ def make_input(call, ci, sh):
 
 class _BodyError(Exception):
     pass
+
+
+def _first_in_other_thread(gen, sh):
+    """The first result is taken by a helper thread (a prefetcher, run_in_executor), the rest by the caller: one generator used
+    by two threads one after the other. Returns an iterator over all the results."""
+    box = []
+
+    def take():
+        try:
+            box.append(("ok", next(gen)))
+        except StopIteration:
+            box.append(("stop", None))
+        except BaseException as e:      # noqa: B036 - handed over to the caller
+            box.append(("exc", e))
+    t = threading.Thread(target=take, name="vf:first-next")
+    t.start()
+    t.join()
+    sh.log("first_next_in_other_thread")
+    if box[0][0] == "exc":
+        raise box[0][1]
+    if box[0][0] == "ok":
+        yield box[0][1]
+        yield from gen
+
+
+class _ExitInOtherThread:
+    """with-protocol around a pool: entered by the calling thread, left by another one (a context handed over to a worker thread,
+    an asyncio task finished by the loop's executor)."""
+
+    def __init__(self, pool, sh):
+        self.pool, self.sh = pool, sh
+
+    def __enter__(self):
+        return self.pool.__enter__()
+
+    def __exit__(self, et, ev, tb):
+        box = []
+
+        def leave():
+            try:
+                box.append(("ok", self.pool.__exit__(et, ev, tb)))
+            except BaseException as e:      # noqa: B036
+                box.append(("exc", e))
+        t = threading.Thread(target=leave, name="vf:leaver")
+        t.start()
+        t.join()
+        self.sh.log("pool_left_by_another_thread")
+        if box[0][0] == "exc":
+            raise box[0][1]
+        return box[0][1]
 
 
 def _frames_signature():
@@ -574,7 +640,7 @@ def run_case_here(case, outpath, scratch):
         sh.log("pool_enter")
         body_raises = case.get("body_raises")
         try:
-          with pool:
+          with (_ExitInOtherThread(pool, sh) if case.get("exit_in_other_thread") else pool):
             sh.log("pool_entered", pids=[p.pid for p in pool.procs])
             inner_pool = None
             if case.get("nested_pool"):
@@ -609,6 +675,7 @@ def run_case_here(case, outpath, scratch):
                 # the caller builds all its result generators first and consumes them one after the other
                 pre_gens = [(pool.imap if c_["ordered"] else pool.imap_unordered)(make_input(c_, k_, sh), chunk_arg(c_))
                             for k_, c_ in enumerate(case["calls"])]
+            gen = prev_gen = None
             for ci, call in enumerate(case["calls"]):
                 state["phase"] = "call"
                 state["call"] = ci
@@ -631,11 +698,19 @@ def run_case_here(case, outpath, scratch):
                     data = rr_stream()
                 sh.log("call_start", call=ci)
                 try:
+                    if case.get("release_prev_mid_call") and ci:
+                        prev_gen = gen          # the (exhausted) generator of the previous call is still referenced by the caller ...
                     gen = pre_gens[ci] if pre_gens is not None else \
                         (pool.imap if call["ordered"] else pool.imap_unordered)(data, chunk_arg(call))
-                    for y in gen:
+                    src = _first_in_other_thread(gen, sh) if call.get("first_next_in_thread") else gen
+                    for y in src:
                         got_one.release()
                         rec["yields"].append(_compact(y, call))
+                        if prev_gen is not None:
+                            prev_gen = None     # ... and is released (and collected) while this call is being read
+                            import gc
+                            gc.collect()
+                            sh.log("previous_generator_released_mid_call")
                         if call.get("abandon_after") is not None and len(rec["yields"]) >= call["abandon_after"]:
                             # the caller stops consuming here and keeps the suspended generator (as a traceback would): the
                             # pool is left with this call unfinished
@@ -805,7 +880,8 @@ def drive_fmap(case, sh, state):
             state["calls"].append(rec)
             sh.log("call_start", call=ci)
             try:
-                for y in (pre[ci] if pre is not None else m(make_input(call, ci, sh), chunk_arg(call))):
+                g_ = pre[ci] if pre is not None else m(make_input(call, ci, sh), chunk_arg(call))
+                for y in (_first_in_other_thread(g_, sh) if call.get("first_next_in_thread") else g_):
                     rec["yields"].append(_compact(y, call))
                 rec["completed"] = True
             except instr.InjectedFault:
@@ -877,6 +953,12 @@ def run_case(case, scratch):
     pid = os.fork()
     if pid == 0:
         try:
+            if case.get("in_mp_child"):
+                # the whole case runs inside a child process of the multiprocessing package (a service process, a worker of an
+                # outer pool): multiprocessing.parent_process() is set, current_process() is a Process object
+                p_ = multiprocessing.get_context("fork").Process(target=run_case_here, args=(case, outpath, scratch), name="vf-service")
+                p_._bootstrap()
+                os._exit(0)
             run_case_here(case, outpath, scratch)
         finally:
             os._exit(7)
@@ -1162,6 +1244,14 @@ def lifecycle_findings(case, result):
                         break
             elif e["ev"] == "ready_during_raise":
                 out.append(("until-all-ready-raised", f"until_all_ready() raised {e.get('exc')}"))
+    if result.get("status") == "driver-exception" and result.get("phase") == "pool_exit" and not case.get("join_timeout") \
+            and not case.get("faults"):
+        # leaving the context raised: whatever the exception, the workers were to be stopped and joined first
+        w_ = result.get("witness") or {}
+        for (pid, _w), es in by_pid.items():
+            if any(e["ev"] == "begin_enter" for e in es) and not any(e["ev"] == "end_exit" for e in es):
+                out.append(("worker-left-running", f"leaving the pool context raised {str(w_.get('exception'))[:160]} and worker wid={es[0].get('wid')} "
+                            f"pid={pid} had not run end() by then (nobody told it to stop)"))
     if completed and not case.get("join_timeout"):
         exit_ret = next((e["seq"] for e in ev if e["ev"] == "pool_exit_return"), None)
         if exit_ret is not None:
